@@ -63,7 +63,10 @@ def units(tier, seed):
     # an analyzer grid (8 m x 4 m half-extents) smaller than the evaluated region: rows outside every area rectangle carry no area
     for fr in ("base_link", "map"):
         for nd in (1, 3, 9):
-            u.append(dict(kind="single", frame=fr, policy="DEFAULT", areas=nd, chunk=[0, 2 if tier == "quick" else 1], tier=tier, grid=[8.0, 4.0]))
+            u.append(dict(kind="single", frame=fr, policy="DEFAULT", areas=nd, chunk=[0, 4 if tier == "quick" else 1], tier=tier, grid=[8.0, 4.0]))
+            # a grid longer in y than in x, with an extra pair on the ego's left between the two half-extents
+            if nd != 1:
+                u.append(dict(kind="single", frame=fr, policy="DEFAULT", areas=nd, chunk=[1, 4] if tier == "quick" else [0, 1], tier=tier, grid=[4.5, 9.0]))
     for fr in ("base_link", "map"):
         for k in range(4):
             u.append(dict(kind="multi", frame=fr, chunk=[k, 4], tier=tier))
@@ -100,6 +103,10 @@ def run_unit(unit, acc):
             c = dict(kind="single", frame=unit["frame"], policy=unit["policy"], areas=unit["areas"], crit=CRITS[i % 2], ego=ego, scenes=[[dict(ests=es, gts=gs)]])
             if unit.get("grid"):
                 c["grid"] = unit["grid"]
+                if unit["grid"][1] > unit["grid"][0]:
+                    e0, g0 = _pools(unit["tier"])
+                    c["scenes"] = [[dict(ests=list(es) + [dict(e0[0], x=2.2, y=5.4, uuid="eL", score=0.41)] + ([dict(e0[0], x=-2.1, y=-5.2, uuid="eR", score=0.4)] if i % 3 == 0 else []),
+                                         gts=list(gs) + [dict(g0[0], x=2.0, y=5.5, uuid="gL")] + ([dict(g0[0], x=-3.0, y=7.5, uuid="gF")] if i % 2 else []))]]
             check_case(c, acc)
     else:
         idx = 0
@@ -182,6 +189,20 @@ def check_case(case, acc):
     for k in want:
         if want[k] != got[k]:
             bad("count:" + k, "table holds %d %s rows, frame results hold %d" % (got[k], k.upper(), want[k]))
+    # the status dispatcher, whole table and per scene, agrees with the pass/fail lists of the frames selected
+    for sel_scene in [None] + sorted({si for si, *_ in all_frames}):
+        Ps = [fr.pass_fail_result for si, fr, *_ in all_frames if sel_scene is None or si == sel_scene]
+        wsel = dict(TP=sum(len(p_.tp_object_results) for p_ in Ps), FP=sum(len(p_.fp_object_results) for p_ in Ps),
+                    TN=sum(len(p_.tn_objects) for p_ in Ps), FN=sum(len(p_.fn_objects) for p_ in Ps))
+        for st, wv in wsel.items():
+            acc.exec()
+            try:
+                gv_ = an.get_status_num(st, **({} if sel_scene is None else {"scene": sel_scene}))
+            except Exception as ex:  # noqa
+                bad("status-num:raises", "get_status_num(%r, scene=%r) raised %r" % (st, sel_scene, ex))
+                continue
+            if gv_ != wv:
+                bad("status-num:" + st, "get_status_num(%r%s) = %d, the selected frames hold %d" % (st, "" if sel_scene is None else ", scene=%d" % sel_scene, gv_, wv))
     n_est = sum(len(fr.object_results) for _, fr, *_ in all_frames)
     if an.num_estimation != n_est:
         bad("count:estimation", "table holds %d estimates, %d were evaluated" % (an.num_estimation, n_est))
@@ -345,6 +366,17 @@ def check_case(case, acc):
             want_area = inside.index(True) if any(inside) else None
             got_area = src["area"]
             got_area = None if (got_area is None or (isinstance(got_area, float) and math.isnan(got_area))) else int(got_area)
+            # independent of the analyzer's own rectangles: the areas tile the region [-max_x, max_x] x [-max_y, max_y] (thirds along x
+            # for 3 areas, along x and y for 9), so a position strictly inside the region and off the dividing lines has an area, and a
+            # position outside has none
+            lines_x = [] if len(ur) == 1 else [-gx_ / 3.0, gx_ / 3.0]
+            lines_y = [] if len(ur) != 9 else [-gy_ / 3.0, gy_ / 3.0]
+            off_lines = all(abs(sp["x"] - l_) > 1e-6 for l_ in lines_x + [-gx_, gx_]) and all(abs(sp["y"] - l_) > 1e-6 for l_ in lines_y + [-gy_, gy_])
+            if off_lines:
+                in_region = abs(sp["x"]) < gx_ and abs(sp["y"]) < gy_
+                if in_region != (got_area is not None):
+                    bad("area:tiling:" + fr_id, "row %s at ego-frame (%.3f, %.3f) %s the region +-(%s, %s) but is assigned area %r (%d areas)" % (
+                        src["uuid"], sp["x"], sp["y"], "lies inside" if in_region else "lies outside", gx_, gy_, got_area, len(ur)))
             if got_area != want_area:
                 bad("area:" + fr_id, "row %s at ego-frame (%.3f, %.3f) is assigned to area %r, its position lies in area %r of %d" % (src["uuid"], sp["x"], sp["y"], got_area, want_area, len(ur)))
     # ---- per-object status tallies ---------------------------------------------------------------
